@@ -118,6 +118,7 @@ func (err *jsonParseError) Error() string {
 
 type yamlParseError struct {
 	fname, contents string
+	index, line     int // characters and lines preceding the contents
 	err             error
 }
 
@@ -135,7 +136,8 @@ func (err *yamlParseError) Error() string {
 			strings.TrimPrefix(err.err.Error(), "yaml: "))
 	}
 	linestr, line, column := getLineByOffset(err.contents,
-		runeIndexToOffset(err.contents, index)+1)
+		runeIndexToOffset(err.contents, index-err.index)+1)
+	line += err.line
 	return fmt.Sprintf("invalid yaml: %s:%d\n%s  %s",
 		err.fname, line, formatLineInfo(linestr, line, column), message)
 }
